@@ -2,5 +2,7 @@ INIT Init
 NEXT Next
 INVARIANT VisibilityLaw
 INVARIANT GlobalsLaw
+INVARIANT RefLaw
+INVARIANT VarsLaw
 CHECK_DEADLOCK FALSE
 CONSTANTS Mutant = "none"
